@@ -328,6 +328,7 @@ func init() {
 			checkC13CommandCollection(c, budget(c.Tier, 150, 5000))
 			checkC13CommandNamespace(c, budget(c.Tier, 150, 5000))
 			checkIniAddOption(c, budget(c.Tier, 60, 2000), "C13")
+			checkC13SectionRenamed(c, budget(c.Tier, 60, 2000), "C13")
 			runMixedCases(c, budget(c.Tier, 150, 15000), defaultProfile, []string{"iniparse", "parse"}, 3, func(cr *CaseResult) { oracleNoPanic(c, cr) })
 		}}
 	props["C05"] = propRun{
@@ -336,6 +337,7 @@ func init() {
 			checkC05(c, budget(c.Tier, 600, 60000))
 			checkC05Exotic(c, budget(c.Tier, 400, 20000))
 			checkC05SharedStorage(c, budget(c.Tier, 100, 3000))
+			checkC05EnvNamespaceChanged(c, budget(c.Tier, 60, 2000))
 			checkC05LateBelow(c, budget(c.Tier, 200, 8000))
 			p := defaultProfile
 			p.Env = 0.4
@@ -360,6 +362,7 @@ func init() {
 		run: func(c *Ctx) {
 			checkC16(c, budget(c.Tier, 500, 50000))
 			checkC16MaskChanged(c, budget(c.Tier, 150, 5000))
+			checkC16DefaultChanged(c, budget(c.Tier, 100, 3000))
 		}}
 	props["C18"] = propRun{
 		rule: "generated declarations (Completer-typed options and positionals, hidden options, nested commands) and argument vectors made of a plausible prefix and a partial last word (long/short prefixes, --name=partial, -xpartial, command prefixes, bare dash); completion list compared with the model; sortedness and hidden-name oracles; acceptance oracle against the parser itself (its own parse of the typed words gives the command context; every offered option / command, appended to those words, must be taken by the parser as that option / command; long-option and command lists must be exactly the visible ones of that context which the parser accepts there; the probes are compared with the model too); positional stage: positional fields of a completing type, k typed values, terminator / PassAfterNonOption: the type's completions are offered exactly when a field still takes the word; value stage: an option of a completing type under ASCII and multi-byte short names, the last word spelling it with a partial value as --name=V, --name V, -xV, -x=V, -x V: exactly the type's completions of the partial value, re-attached to the spelling; ignored-cluster stage: under IgnoreUnknown a typed cluster with an undeclared letter (in front of declared ones) is one passed-through word: long options stay offered, a declared last letter awaits no value, the word takes a positional field or ends command recognition; outer-word stage: behind a command without subcommands a word spelling a sibling command (or its alias, or the command itself) is a rest argument: the command's own and its ancestors' options only, no values of the sibling's positional arguments, no command names; distinct per case",
@@ -370,6 +373,7 @@ func init() {
 			checkC18IgnoredCluster(c, budget(c.Tier, 200, 5000))
 			checkC18OuterWord(c, budget(c.Tier, 150, 4000))
 			checkC18Shadowed(c, budget(c.Tier, 120, 3000))
+			checkC18HiddenChanged(c, budget(c.Tier, 100, 3000))
 		}}
 }
 
